@@ -234,6 +234,14 @@ func semanticErrors() []declCase {
 	add("oneof with an array member", "oneof Ch {\n  option a array:string\n}\n", false)
 	add("oneof with a map member", "oneof Ch {\n  option a map:string\n}\n", false)
 	add("service without name", "service {\n  basePath = \"/foo\"\n}\n", true)
+	// names that are not protobuf identifiers (the lexer takes any unicode letter): positioned conversion errors since /repo c71d8d9
+	add("non-ASCII object name", "object Élan {\n  field name string\n}\n", true)
+	add("non-ASCII field name", "object Foo {\n  field naïve string\n}\n", true)
+	add("non-ASCII enum option", "enum Kind {\n  option Ä\n  option B\n}\n", true)
+	add("non-ASCII oneof option", "oneof Ch {\n  option naïve object {\n  }\n}\n", true)
+	add("non-ASCII service and method names", "service Fé {\n  basePath = \"/foo\"\n  method Bär {\n    httpMethod = \"GET\"\n    httpPath = \"/bar\"\n    request {\n    }\n  }\n}\n", true)
+	add("non-ASCII entity name", "entity Élan {\n  key elanId key:id62 {\n    primary = true\n  }\n  status ACTIVE\n  event Created {\n  }\n}\n", true)
+	add("non-ASCII inline field name", "object Foo {\n  field inner object {\n    field ü string\n  }\n}\n", true)
 	add("entity status filter unknown", "entity Foo {\n  key fooId key:id62 {\n    primary = true\n  }\n  status ACTIVE\n  query.defaultStatusFilter = [\"NOPE\"]\n}\n", false)
 	add("entity duplicate summary", "entity Foo {\n  key fooId key:id62 {\n    primary = true\n  }\n  status ACTIVE\n  summary A {\n    field x string\n  }\n  summary A {\n    field y string\n  }\n}\n", false)
 	// inline types with an empty block (reported by cmpa2: the front end leaves EnumField.Schema nil): whatever the verdict, positioned
